@@ -101,6 +101,14 @@ func ctCheckSeq(c *ev.Collector, t ev.Fataler, ops []int, every bool) {
 	for i, op := range ops {
 		ctApply(s, op)
 		m.apply(op)
+		if (len(ops)+i+op)%7 == 0 {
+			// other users of the same field look its header up unmasked (a reg-move or learn-spec source,
+			// a set-field target) while matches are being built; the builder's result does not depend on them
+			if f, err := of.FindFieldHeaderByName("NXM_NX_CT_STATE", false); err == nil && f != nil {
+				f.Length, f.HasMask = 0, true // the result is the caller's
+			}
+			of.FindFieldHeaderByName("nxm_nx_ct_state", i%2 == 0)
+		}
 		if !every && i != len(ops)-1 {
 			continue
 		}
@@ -122,6 +130,9 @@ func ctCheckSeq(c *ev.Collector, t ev.Fataler, ops []int, every bool) {
 func TestC18(t *testing.T) {
 	c := ev.For("C18")
 	defer c.Done()
+	// the first use of the ct_state header in this process is somebody else's, and unmasked (a move or
+	// learn-spec source): what the builder returns later must not depend on who came first
+	of.FindFieldHeaderByName("NXM_NX_CT_STATE", false)
 	c.Rule("(a) exhaustive: each of the 3^8=6561 builder states (reached by a canonical call sequence) x 16 operations; " +
 		"(b) exhaustive: every call sequence of length 1..4 (69904); (c) rapid: random sequences of length 5..64 checked after every step. " +
 		"Observed through the value/mask bytes of NewCTStateMatchField. Non-trivial: a sequence that touches some flag twice or two different flags " +
